@@ -348,6 +348,18 @@ def byte_mutations(text, rng, n):
     return out
 
 
+def every_byte_everywhere(text, positions=None):
+    """substitute / insert every byte value 0..255 at every offset of a (short) description"""
+    out = []
+    pos = range(len(text) + 1) if positions is None else positions
+    for p in pos:
+        for v in range(256):
+            out.append(text[:p] + bytes([v]) + text[p:])
+            if p < len(text):
+                out.append(text[:p] + bytes([v]) + text[p + 1:])
+    return out
+
+
 CERT = None
 
 
